@@ -5,10 +5,10 @@ package props
 import (
 	"fmt"
 	"hash/fnv"
-	"time"
 	"sort"
 	"strings"
 	"testing/synctest"
+	"time"
 
 	"github.com/anacrolix/dht/v2/verifsched"
 
@@ -38,6 +38,7 @@ type e2Ctl struct {
 	ticks    int // clock steps taken
 	maxTicks int
 	wantTick func() bool // is there still something a timer could unblock?
+	tickOK   func() bool // may time pass in this state? (nil = yes)
 	isLoop   func(name string) bool
 	lastSeen map[*verifsched.Thread]string
 	lastRel  *verifsched.Thread
@@ -71,7 +72,7 @@ func (c *e2Ctl) loop(onQuiescent func()) bool {
 			// not fatal by itself: the property monitors decide what it means
 		}
 		en, _ := c.S.Snapshot()
-		canTick := c.tick > 0 && c.ticks < c.maxTicks && (c.wantTick == nil || c.wantTick())
+		canTick := c.tick > 0 && c.ticks < c.maxTicks && (c.wantTick == nil || c.wantTick()) && (c.tickOK == nil || c.tickOK())
 		if len(en) == 0 && !canTick {
 			return true
 		}
